@@ -7,13 +7,13 @@ CHECKS = {
  "C01": dict(
    technique="model-based property testing (rapid histories + exhaustive small scope) against a relation model and a pure fold oracle",
    level="exploration",
-   text="Generated operation histories (random, model-aimed, plus every history of length<=3 [quick] / <=4 [thorough] over a 24-step alphabet) are run against rib.RIB and against server.Modify/Get over in-process streams; after every step the installed entries must equal (a) the pure fold of the acknowledged operations in acknowledgement order and (b) the relation model, and held-set / counters must match. Search, not proof: it shows the property on the explored histories and finds counterexamples, shrunk to a replay file. In addition: dependency graphs in disturbed arrival orders (held chains, dependencies deleted while waited for, doomed held REPLACEs failing inside a cascade) and one server-level history in four runs with the server behind a real grpc.Server over bufconn (real codec and HTTP/2 streams), under the same oracles.",
+   text="Generated operation histories (random, model-aimed, plus every history of length<=3 [quick] / <=4 [thorough] over a 24-step alphabet) are run against rib.RIB and against server.Modify/Get over in-process streams; after every step the installed entries must equal (a) the pure fold of the acknowledged operations in acknowledgement order and (b) the relation model, and held-set / counters must match. Search, not proof: it shows the property on the explored histories and finds counterexamples, shrunk to a replay file. In addition: dependency graphs in disturbed arrival orders (held chains, dependencies deleted while waited for, doomed held REPLACEs failing inside a cascade) and one server-level history in four runs with the server behind a real grpc.Server over bufconn (real codec and HTTP/2 streams), under the same oracles. One random history in eight runs with reference checking disabled (rib.DisableRIBCheckFn / server.DisableRIBCheckFn) against the model without reference checks; server-level histories may read the contents back only after every 2nd-5th request.",
    note="Trusted: the reference model in harness/internal/model, the generator's notion of schema-valid payloads, rib.Concrete*Proto for reading L1 state (cross-checked by C07). Exhaustive only for the stated small scopes.",
    design="DESIGN.md §4 C01"),
  "C02": dict(
    technique="model-based property testing: every arrival order of small dependency graphs (exhaustive) + rapid-drawn larger graphs, against a relation model with completeness and closure invariants",
    level="exploration",
-   text="Operations of dependency graphs (NH <- NHG <- IPv4/IPv6/MPLS, cross-instance references, dependencies deleted/re-added/never arriving, doomed held REPLACEs) are applied in every arrival order for subsets of a 15-op pool (<=4 ops quick, <=5 thorough) and in random orders for larger generated graphs, with forward references on and off, against rib.RIB and the server streams. After every step: each acknowledged op must be resolvable at its turn, no held op may be resolvable (held-id hook), no installed entry may dangle, unresolved ops must be FAILED at once when forward references are disallowed.",
+   text="Operations of dependency graphs (NH <- NHG <- IPv4/IPv6/MPLS, cross-instance references, dependencies deleted/re-added/never arriving, doomed held REPLACEs) are applied in every arrival order for subsets of a 15-op pool (<=4 ops quick, <=5 thorough) and in random orders for larger generated graphs, with forward references on and off, against rib.RIB and the server streams. After every step: each acknowledged op must be resolvable at its turn, no held op may be resolvable (held-id hook), no installed entry may dangle, unresolved ops must be FAILED at once when forward references are disallowed. One generated graph in four is interrupted by a Flush (all instances or one): held operations are not entries, they stay held and must still be answered when their references arrive.",
    note="Trusted: reference model; the verif-tagged held-id hook. Exhaustive only for the stated pool/size; larger graphs are sampled.",
    design="DESIGN.md §4 C02"),
  "C03": dict(
@@ -31,13 +31,13 @@ CHECKS = {
  "C08": dict(
    technique="property-based testing with full decision-table enumeration at a generated flush point, against an explicit status table and the RIB relation model",
    level="exploration",
-   text="For generated RIB contents (backup groups shared/missing/circular, cross-instance references) the complete decision table of Flush {target} x {election field} is enumerated against server election state (a learnt 128-bit id from a lattice, or none learnt with injected contents): every non-authorised or malformed cell must return the code and FlushResponseError reason gribi.proto assigns and change nothing (Get + hooks after each cell); one drawn authorised cell must answer OK, empty exactly its targets and leave counters consistent, and a generated epilogue of operations must behave as the model predicts. In addition (rib API), Flushes of 1-3 instances in a drawn order are stopped at a drawn removal notification through the public post-change hook; one further operation is started there on another goroutine and the Flush resumes only when that operation returned or is parked on a lock (goroutine state): the final contents must equal 'operation, then flush' or 'flush, then operation' under the belief model, Flush must succeed and counters must equal referrers.",
+   text="For generated RIB contents (backup groups shared/missing/circular, cross-instance references) the complete decision table of Flush {target} x {election field} is enumerated against server election state (a learnt 128-bit id from a lattice, or none learnt with injected contents): every non-authorised or malformed cell must return the code and FlushResponseError reason gribi.proto assigns and change nothing (Get + hooks after each cell); one drawn authorised cell must answer OK, empty exactly its targets and leave counters consistent, and a generated epilogue of operations must behave as the model predicts. In addition (rib API), Flushes of 1-3 instances in a drawn order are stopped at a drawn removal notification through the public post-change hook; one further operation is started there on another goroutine and the Flush resumes only when that operation returned or is parked on a lock (goroutine state): the final contents must equal 'operation, then flush' or 'flush, then operation' under the belief model, Flush must succeed and counters must equal referrers. RIBs built with DisableRIBCheckFn (entries whose group is missing or whose group instance is unknown) are flushed with a model-free before/after oracle.",
    note="Trusted: the status table transcribed from gribi.proto comments (zero id: reason fixed, code INVALID_ARGUMENT or FAILED_PRECONDITION accepted); reference model; hooks. Authorised cells are sampled per RIB, rejected cells are all enumerated.",
    design="DESIGN.md §4 C08"),
  "C07": dict(
    technique="property-based testing: round-trip (programmed payload == Get payload), metamorphic relations over the (NI x table) request matrix, and FromGetResponses rebuild, on contents generated through Modify",
    level="exploration",
-   text="RIB contents are reached through Modify with payloads populating every fluent-settable field; then the whole request matrix {3 NIs, all, unknown} x {ALL and the five tables} is issued. Each response set must equal the model's installed entries of that scope with proto-equal payloads and correct NI tags; Get(ALL) must be the disjoint union of the per-table Gets and Get(all NIs) the union of per-NI Gets; empty scopes give empty OK streams; a RIB rebuilt with rib.FromGetResponses must equal the source contents.",
+   text="RIB contents are reached through Modify with payloads populating every fluent-settable field; then the whole request matrix {3 NIs, all, unknown} x {ALL and the five tables} is issued. Each response set must equal the model's installed entries of that scope with proto-equal payloads and correct NI tags; Get(ALL) must be the disjoint union of the per-table Gets and Get(all NIs) the union of per-NI Gets; empty scopes give empty OK streams; a RIB rebuilt with rib.FromGetResponses must equal the source contents. One case in four runs over a real grpc.Server on bufconn (every response marshalled and parsed); one in three reads the contents back only after every 2nd-6th request; the key universe contains valid but non-canonically spelled IPv6 prefixes.",
    note="Trusted: reference model for which keys are installed; canonicalisation of keyed lists; in-process Get stream (no gRPC codec).",
    design="DESIGN.md §4 C07"),
  "C15": dict(
@@ -55,13 +55,13 @@ CHECKS = {
  "C05": dict(
    technique="exhaustive small-scope enumeration + rapid sequences of election announcements against an explicit election model, with a behavioural probe of the primary",
    level="exploration",
-   text="All announcement sequences of length<=3 (quick) / <=4 (thorough) over the 9-id lattice {0,1,2}^2 and 3 sessions, plus random sequences with boundary-structured 128-bit ids, ties, decreases and disconnects. Every election response must carry exactly the running 128-bit maximum; a zero id must end that RPC with INVALID_ARGUMENT and change nothing; after every step the hook's (id, primary) must equal the model's, and every announced session's correctly stamped probe operation must be acknowledged iff it is the model's primary.",
+   text="All announcement sequences of length<=3 (quick) / <=4 (thorough) over the 9-id lattice {0,1,2}^2 and 3 sessions, plus random sequences with boundary-structured 128-bit ids, ties, decreases and disconnects. Every election response must carry exactly the running 128-bit maximum; a zero id must end that RPC with INVALID_ARGUMENT and change nothing; after every step the hook's (id, primary) must equal the model's, and every announced session's correctly stamped probe operation must be acknowledged iff it is the model's primary. The in-flight schedules of C04 (announcements delivered while an operation of the primary is stopped inside the post-change hook) are run with this property's clauses: no election response below the id it answers or above the maximum announced; id and primary at quiescence.",
    note="Trusted: the model definition taken from the property text; sequential (harness-owned) interleaving only - concurrent announcements are examined under C11.",
    design="DESIGN.md §4 C05"),
  "C06": dict(
    technique="model-based property testing of multi-session histories with a per-stream exactly-once result accounting oracle",
    level="exploration",
-   text="Multi-session histories with batches of 1-8 operations over all tables (held operations that later resolve or fail, empty/unknown network instances, non-primary senders, wrong stamps), RIB-ack and FIB-ack, hand-over of the primary role while operations are held and per-session id counters that overlap across sessions. Per stream, up to a barrier after every request: no result for an id not sent on it; per id one of [FAILED], [RIB], [RIB,FIB]; never a verdict twice or failure and success; unanswered only if held, stream ended or primary role lost.",
+   text="Multi-session histories with batches of 1-8 operations over all tables (held operations that later resolve or fail, empty/unknown network instances, non-primary senders, wrong stamps), RIB-ack and FIB-ack, hand-over of the primary role while operations are held and per-session id counters that overlap across sessions. Per stream, up to a barrier after every request: no result for an id not sent on it; per id one of [FAILED], [RIB], [RIB,FIB]; never a verdict twice or failure and success; unanswered only if held, stream ended or primary role lost. In addition: dependency graphs sent by one elected session, and hand-overs in flight (the cascade that installs 1-6 held operations is stopped at a drawn installation through the post-change hook, another session takes over, the cascade is released): per-id verdict sequences must stay legal on every stream. A message for a session that sent nothing is accepted only if it fails that session's own unanswered operations.",
    note="Trusted: relation model deciding which operations are held; barrier-based quiescence of in-process streams; reading of gribi.proto that a fail-over discards the previous primary's held operations.",
    design="DESIGN.md §4 C06"),
  "C09": dict(
@@ -79,7 +79,7 @@ CHECKS = {
  "C10": dict(
    technique="fault enumeration over generated scripts: every cut point x termination mode (in-process streams give exact cut points), prefix-of-sent-operations oracle, probe session under a watchdog with goroutine-dump attribution",
    level="fault_enumeration",
-   text="For every generated Modify script all single faults are enumerated: the client goes away after each message sent, after each response read, at the K-th response inside a batch (send failure, or flow-control stall followed by cancel), by half-close, cancel or transport error; Gets are abandoned after each received response 0..n; plus random sequences of 2-3 faults. Once the RPC has ended and its goroutines are parked, entries read through a fresh Get must equal the model state after some prefix of the sent operations that includes every acknowledged one, the learnt election id must be the maximum delivered, the session footprint must be gone, and a probe session (negotiate, win election, ADD, Get, Flush) must complete; a watchdog expiry counts only with a gribigo frame parked on a lock/channel. The same scripts are also run with the server behind a real grpc.Server over bufconn: CloseSend, context cancellation (RST_STREAM), teardown of the client's connection, a client that never reads and then cancels, an abandoned Get stream, and a flood of cheap operations that parks the server's writer in HTTP/2 flow control before the client goes away.",
+   text="For every generated Modify script all single faults are enumerated: the client goes away after each message sent, after each response read, at the K-th response inside a batch (send failure, or flow-control stall followed by cancel), by half-close, cancel or transport error; Gets are abandoned after each received response 0..n; plus random sequences of 2-3 faults. Once the RPC has ended and its goroutines are parked, entries read through a fresh Get must equal the model state after some prefix of the sent operations that includes every acknowledged one, the learnt election id must be the maximum delivered, the session footprint must be gone, and a probe session (negotiate, win election, ADD, Get, Flush) must complete; a watchdog expiry counts only with a gribigo frame parked on a lock/channel. The same scripts are also run with the server behind a real grpc.Server over bufconn: CloseSend, context cancellation (RST_STREAM), teardown of the client's connection, a client that never reads and then cancels, an abandoned Get stream, and a flood of cheap operations that parks the server's writer in HTTP/2 flow control before the client goes away. Half of the abandoned Gets are the first read after state-neutral writes to every table.",
    note="Trusted: belief model (servers run with forward references disallowed so unanswered operations are deterministic); goroutine-state quiescence; emulation of transport faults at the stream interface (kernel-level failures out of reach).",
    design="DESIGN.md §4 C10"),
  "C17": dict(
@@ -97,7 +97,7 @@ CHECKS = {
  "C13": dict(
    technique="model-based property testing of the client library against a scripted stub server with adversarial response schedules and a concurrent sampler",
    level="exploration",
-   text="The client is driven through a scripted stub GRIBIClient: generated request batches and server schedules (results reordered across ids, grouped into responses, RIB and FIB acks split, election/parameter responses interleaved; violating servers with unknown ids, duplicate terminal results, multi-field responses). At every probe, after the receiver has provably processed everything sent (Recv-call synchronisation), Pending/Results must match the client model id by id (exactly one of pending / terminal result, details carry the operation's type and key, a RIB ack never completes an operation in FIB-ack mode) and AwaitConverged must return nil iff the model is converged, and a *ClientErr after a violating schedule; a concurrent sampler checks that no operation is ever lost.",
+   text="The client is driven through a scripted stub GRIBIClient: generated request batches and server schedules (results reordered across ids, grouped into responses, RIB and FIB acks split, election/parameter responses interleaved; violating servers with unknown ids, duplicate terminal results, multi-field responses). At every probe, after the receiver has provably processed everything sent (Recv-call synchronisation), Pending/Results must match the client model id by id (exactly one of pending / terminal result, details carry the operation's type and key, a RIB ack never completes an operation in FIB-ack mode) and AwaitConverged must return nil iff the model is converged, and a *ClientErr after a violating schedule; a concurrent sampler checks that no operation is ever lost. In addition an operation id is handed in a second time while unanswered (inside one request or in a later one) and every distinct id is answered once: AwaitConverged must not return nil.",
    note="Trusted: the client model; Recv-call counting as the processing barrier; BusyLoopDelay set to 1 ms. One known finding is tolerated by signature (RIB_PROGRAMMED for a non-pending id in FIB-ack mode is not reported).",
    design="DESIGN.md §4 C13"),
  "C14": dict(
@@ -109,13 +109,13 @@ CHECKS = {
  "C11": dict(
    technique="randomised concurrent workloads (rapid-drawn scripts, scheduler perturbation, GOMAXPROCS variation) and election storms (simultaneous announcements from a spin barrier) under the Go race detector with a hang watchdog and a quiescent-state oracle",
    level="exploration",
-   text="2-4 Modify sessions with ascending election ids (ties across sessions) and batches over per-session disjoint keys run from real goroutines together with Get readers and Flush callers (override and id-authorised) against one server built with -race. Any race-detector report is a violation (signature = the racing gribigo functions), as is a process death or a hang with gribigo frames parked on a lock/channel. At quiescence the learnt election id must be the maximum announced, the primary a session that announced it, every operation answered with one legal result sequence and, when no Flush overlapped, Get(ALL) must equal the union of the per-session folds of acknowledged operations.",
+   text="2-4 Modify sessions with ascending election ids (ties across sessions) and batches over per-session disjoint keys run from real goroutines together with Get readers and Flush callers (override and id-authorised) against one server built with -race. Any race-detector report is a violation (signature = the racing gribigo functions), as is a process death or a hang with gribigo frames parked on a lock/channel. At quiescence the learnt election id must be the maximum announced, the primary a session that announced it, every operation answered with one legal result sequence and, when no Flush overlapped, Get(ALL) must equal the union of the per-session folds of acknowledged operations. One session in five ends with a request during which its client goes away while the others go on; one random workload in four runs over real gRPC (bufconn).",
    note="Trusted: the Go race detector's happens-before analysis on the executions seen; the scheduler chooses the interleavings (sampled, not enumerated).",
    design="DESIGN.md §4 C11"),
  "C19": dict(
    technique="property-based testing of the compliance suite itself: rapid-drawn permutations/configurations on a shared conformant server, and a catalogue of single-requirement faulty servers (rewriting proxy over bufconn) with designated tests as oracle",
    level="exploration",
-   text="Conformant half: every test of compliance.TestSuite must pass on a capturing testing.TB when the whole suite runs over real gRPC (bufconn) on one long-lived reference server in a generated permutation with a generated starting election id and VRF name. Faulty half: 29 single-requirement faults (response/request-rewriting proxy around the reference server, or the opposite server option); each (fault, designated test) pair must fail on a fresh faulty server and pass on a fresh unwrapped server in the same run; designation follows the registry's Requires* flags and test names only. The catalogue includes Get RPCs that end with a non-OK status after the complete data or after the first response.",
+   text="Conformant half: every test of compliance.TestSuite must pass on a capturing testing.TB when the whole suite runs over real gRPC (bufconn) on one long-lived reference server in a generated permutation with a generated starting election id and VRF name. Faulty half: 29 single-requirement faults (response/request-rewriting proxy around the reference server, or the opposite server option); each (fault, designated test) pair must fail on a fresh faulty server and pass on a fresh unwrapped server in the same run; designation follows the registry's Requires* flags and test names only. The catalogue includes Get RPCs that end with a non-OK status after the complete data or after the first response. Further faults cover the plain 'this works' tests (valid additions / groups / deletes / metadata / cross-instance references / identical next-hops refused, session parameters never accepted, Modify unavailable, second matching session refused) and a session error with the right code but the wrong reason; a pair is retried up to three times before a test counts as unable to detect its fault.",
    note="Trusted: the catalogue and designation table in harness/c19/catalogue.go (completeness of the catalogue bounds what the faulty half can see); BusyLoopDelay 1 ms; pairs that wait for the suite's one-minute timeout run in the thorough tier only; a test that shuffles its own operations must fail at least once in 12 attempts.",
    design="DESIGN.md §4 C19, Appendix A"),
 }
